@@ -388,6 +388,14 @@ func (x *Exec) applyStub(kind string, fn *ssa.Function, args []Value) Value {
 		if f := fn.Pkg.Func(target); f != nil {
 			return x.call(f, args, nil)
 		}
+		// "call:<import path>.<name>": a stand-in that lives in another (harness) package
+		if i := strings.LastIndex(target, "."); i > 0 {
+			if p, ok := x.eng.Pkgs[target[:i]]; ok {
+				if f := p.Func(target[i+1:]); f != nil {
+					return x.call(f, args, nil)
+				}
+			}
+		}
 		panic(x.errf("stub target %s not found", target))
 	}
 	if h, ok := contractStubs[kind]; ok {
